@@ -17,7 +17,7 @@ def tick(lib, rng, scratch=None, n=None):
     C, S, A, M = lib.common, lib.signing, lib.authentication, lib.metadata_construction
     for _ in range(n or rng.randint(1, 3)):
         k = gkeys.key(rng.randrange(12))
-        what = rng.randrange(12)
+        what = rng.randrange(20)
         try:
             if what == 0:
                 C.PublicKey.from_hex(k.hex)
@@ -54,9 +54,61 @@ def tick(lib, rng, scratch=None, n=None):
             elif what == 10:
                 C.checkformat_delegating_metadata({"signatures": {"x": 1}, "signed": 5})
                 C.checkformat_hex_key(k.hex.upper())
+            elif what == 11:
+                # an artifact-like (non-delegating) payload checked against a pkg_mgr delegation: accepted ...
+                km = gmd.envelope(gmd.delegating("key_mgr", {"pkg_mgr": gmd.delegation([k], 1)}))
+                env = S.wrap_as_signable({"name": "pkg", "depends": ["x >=%d" % rng.randrange(9)], "size": rng.randrange(10**6)})
+                S.sign_signable(env, C.PrivateKey.from_bytes(k.seed))
+                A.verify_delegation("pkg_mgr", env, km)
+            elif what == 12:
+                # ... and rejected (unsigned scalar / list payloads, unknown role, wrong keys)
+                km = gmd.envelope(gmd.delegating("key_mgr", {"pkg_mgr": gmd.delegation([gkeys.key(13)], 1)}))
+                env = S.wrap_as_signable(rng.choice([None, 5, "text", [1, 2], {"type": "root"}, {"type": "key_mgr", "delegations": 3}]))
+                if rng.random() < 0.5:
+                    S.sign_signable(env, C.PrivateKey.from_bytes(k.seed))
+                A.verify_delegation(rng.choice(["pkg_mgr", "nobody", "root"]), env, km)
+            elif what == 13:
+                r1 = gmd.envelope(gmd.root_md(1, [k], 1, [gkeys.key(13)], 1))
+                r3 = gmd.envelope(gmd.root_md(3, [k], 1, [gkeys.key(13)], 1))
+                A.verify_root(r1, r3)  # version jump, unsigned: fails
+            elif what == 14:
+                M.build_root_metadata(rng.choice([0, -1, "1", None, 2.5]), [k.hex], 1, [k.hex], 1)  # rejected arguments
+            elif what == 15:
+                M.build_root_metadata(1, [k.hex], rng.choice([0, 2, "1"]), [k.hex, "zz"], 1)
+            elif what == 16 and scratch:
+                fn = os.path.join(scratch, "noise-repodata%d.json" % rng.randrange(2))
+                with open(fn, "w") as f:
+                    f.write(rng.choice(['{"packages": {"a-1-0.tar.bz2": {"name": "a"}}}', '{"info": 1}', "", '{"packages": 3}']))
+                S.sign_all_in_repodata(fn, rng.choice([k.seed.hex(), "nothex", k.seed.hex()[:10]]))
+            elif what == 17 and scratch:
+                name = os.path.join(scratch, "noisekey%d" % rng.randrange(2))
+                M.gen_and_write_keys(name)
+                C.keyfiles_to_keys(name)
+                C.keyfiles_to_bytes(os.path.join(scratch, "no-such-key"))
+            elif what == 18:
+                for v in ({"signature": "ab" * 64}, {"signature": "ab" * 64, "other_headers": "04", "see_also": "0" * 40},
+                          {"signature": "AB" * 64}, {"signature": 5}, [], {"signature": "ab" * 64, "extra": 1}):
+                    for f in (C.is_signature, C.is_gpg_signature, C.is_signable, C.checkformat_any_signature):
+                        try:
+                            f(v)
+                        except Exception:  # noqa: BLE001
+                            pass
+                C.checkformat_signature({"signature": "ab" * 64})
+                C.checkformat_gpg_signature({"signature": "ab" * 64, "other_headers": "04ff"})
+                C.checkformat_utc_isoformat(rng.choice(["2021-01-01T00:00:00Z", "2021-13-01T00:00:00Z", 5]))
+            elif what == 19:
+                C.iso8601_time_plus_delta(__import__("datetime").timedelta(days=rng.randrange(400)))
+                M.build_delegating_metadata("key_mgr", {"pkg_mgr": {"pubkeys": [k.hex], "threshold": 1}})
+                M.build_delegating_metadata("key_mgr", {"pkg_mgr": {"pubkeys": [k.hex], "threshold": 1}}, timestamp="yesterday")
             else:
                 data = canonjson.canon({"x": rng.random()})
                 A.verify_signature(ed25519.sign(k.seed, data).hex(), C.PublicKey.from_bytes(k.pub), data)
         except BaseException as e:  # noqa: BLE001 - noise never judges
             if isinstance(e, (KeyboardInterrupt, SystemExit, MemoryError)):
                 raise
+            if os.environ.get("VF_NOISE_DEBUG"):
+                import traceback
+
+                tb = traceback.extract_tb(e.__traceback__)
+                print("noise branch %d: %s: %s (raised at %s:%d)" % (what, type(e).__name__, str(e)[:80], os.path.basename(tb[-1].filename), tb[-1].lineno),
+                      file=__import__("sys").stderr)
